@@ -1,14 +1,17 @@
 import N0Verif.Proofs.FindAll
 import N0Verif.Proofs.FindAllDesc
 import N0Verif.Proofs.FindAllList
+import N0Verif.Proofs.FindAllTail
 import N0Verif.Props.C01
 /-!
 # C19 — dictionary findall returns complete, resolvable, history-independent results
 
 Only property statements live here; the lemmas are in `Proofs/FindAll.lean`,
 `Proofs/FindAllDesc.lean` and `Proofs/FindAllList.lean` (list-rooted containers), the model in
-`Model/FindAll.lean` (it follows the code with `fixes/C19-a.patch`, `fixes/C19-b.patch` and
-`fixes/C19-c.patch` applied).
+`Model/FindAll.lean` (it follows the code with `fixes/C19-a.patch` … `fixes/C19-e.patch` applied:
+since C19-d a name / index step on a final element is a miss of that branch, since C19-e `findall`
+hands `raise_exception` on to `_findall` — `findallTop … re`, default `true`; `findfirst` searches
+with `false`).  Every theorem about `findallTop` holds for both modes.
 
 Reading.  The engine keeps two mutable default arguments.  The model threads the contents of the
 two objects a call receives in and out of every call (`Out.fl`, `Out.ps`), and the top-level entry
@@ -28,9 +31,9 @@ open N0 N0.Py N0.Val N0.XPath N0.FindAll
 /-- **State invariant.**  A search that starts from the fresh default objects leaves them
 fresh: `found_xpath_list` is still `[]` and `parent_nodes_stack` still `{}`, whatever the tree,
 the expression and the outcome (result, `None` or any exception). -/
-theorem C19_state_invariant (fuel : Nat) (t : Val) (e : Str) :
-    (findallTop fuel fresh t e).state = fresh :=
-  findallTop_state fuel t e
+theorem C19_state_invariant (fuel : Nat) (t : Val) (e : Str) (re : Bool) :
+    (findallTop fuel fresh t e re).state = fresh :=
+  findallTop_state fuel t e re
 
 /-- The two halves in general form: the stack object a call of `_findall` receives is never
 modified, and an empty path list stays empty (the in-place updates of the last element happen
@@ -46,6 +49,12 @@ theorem C19_history_independent (fuel : Nat) (hist : List (Val × Str)) :
     runHist fuel fresh hist = (hist.map (fun te => (findallTop fuel fresh te.1 te.2).res), fresh) :=
   runHist_fresh fuel hist
 
+/-- the same for a history in which every search has its own mode (`findall(xp, raise_exception)`) -/
+theorem C19_history_independent_modes (fuel : Nat) (hist : List (Val × Str × Bool)) :
+    runHistM fuel fresh hist =
+      (hist.map (fun te => (findallTop fuel fresh te.1 te.2.1 te.2.2).res), fresh) :=
+  runHistM_fresh fuel hist
+
 /-- **The result depends only on the tree and the expression.**  Whatever searches (on dict- or
 list-rooted containers, succeeding or raising) were run before in the same process, the outcome of
 a search is the outcome of `findallTop fuel fresh t e` — a function of `t` and `e` alone. -/
@@ -55,10 +64,17 @@ theorem C19_depends_only (fuel : Nat) (hist : List (Val × Str)) (t : Val) (e : 
   rw [C19_history_independent, C19_history_independent]
   simp
 
+/-- … and of the mode (`raise_exception`) given to this search, whatever the modes before -/
+theorem C19_depends_only_modes (fuel : Nat) (hist : List (Val × Str × Bool)) (t : Val) (e : Str) (re : Bool) :
+    (runHistM fuel fresh (hist ++ [(t, e, re)])).1 =
+      (runHistM fuel fresh hist).1 ++ [(findallTop fuel fresh t e re).res] := by
+  rw [C19_history_independent_modes, C19_history_independent_modes]
+  simp
+
 /-- the same for `findfirst` (it calls `findall` once) -/
 theorem C19_findfirst_state (fuel : Nat) (t : Val) (e : Str) (re : Bool) :
     (findfirstTop fuel fresh t e re).2 = fresh := by
-  have := findallTop_state fuel t e
+  have := findallTop_state fuel t e false
   unfold findfirstTop
   simp only
   split
@@ -84,9 +100,9 @@ the encoding before and after.  What can be said inside the model: every value o
 mapping occurs in the tree searched (it is the tree, an element of a list or the value of an entry of
 a dictionary occurring in it) — the search neither invents nor rebuilds values — for both roots.
 That the result depends on nothing but the tree and the expression is `C19_depends_only`. -/
-theorem C19_pure (fuel : Nat) (t : Val) (e : Str) (f : Found)
-    (h : (findallTop fuel fresh t e).res = .ok (some f)) : ∀ kv ∈ f, Sub t kv.2 :=
-  fa_sub t true fuel t (tokens e) [] [] Sub.refl (by intro kv hkv; cases hkv) f h
+theorem C19_pure (fuel : Nat) (t : Val) (e : Str) (re : Bool) (f : Found)
+    (h : (findallTop fuel fresh t e re).res = .ok (some f)) : ∀ kv ∈ f, Sub t kv.2 :=
+  fa_sub t re fuel t (tokens e) [] [] Sub.refl (by intro kv hkv; cases hkv) f h
 
 /-! ## 2. exact paths -/
 
@@ -95,12 +111,13 @@ theorem C19_pure (fuel : Nat) (t : Val) (e : Str) (f : Found)
 the canonical xpath of `p` (`"//" + names joined by "/"`, `"[i]"` appended, as `xpath()` writes
 it) returns exactly one pair: that xpath and the node at `p`; the defaults are untouched. -/
 theorem C19_exact_path (cls : Cls) (kvs : List (Str × Val)) (k : Str) (rest : Pos) (c : Val)
-    (h : PathOk (.dict cls kvs) (.key k :: rest) c) (fuel : Nat) (hf : fuel > rest.length + 1) :
-    findallTop fuel fresh (.dict cls kvs) (slash ++ renderPos (.key k :: rest)) =
+    (h : PathOk (.dict cls kvs) (.key k :: rest) c) (fuel : Nat) (hf : fuel > rest.length + 1)
+    (re : Bool := true) :
+    findallTop fuel fresh (.dict cls kvs) (slash ++ renderPos (.key k :: rest)) re =
       ⟨.ok (some [(slash ++ renderPos (.key k :: rest), c)]), [], []⟩ := by
   have hp := h.plain
-  show fa true fuel _ (tokens _) [] [] = _
-  rw [tokens_render k rest hp, fa_exact true (.key k :: rest) _ c [] [] fuel h (by simpa using hf),
+  show fa re fuel _ (tokens _) [] [] = _
+  rw [tokens_render k rest hp, fa_exact re (.key k :: rest) _ c [] [] fuel h (by simpa using hf),
     keyOf_flPath k rest hp]
   rfl
 
@@ -112,11 +129,11 @@ theorem C19_pathOk_getAt {v c : Val} {p : Pos} (h : PathOk v p c) : getAt v p = 
 (model of `n0dict.__getitem__`, C01 engine), and the lookup leaves the tree as it is. -/
 theorem C19_resolves (cls : Cls) (kvs : List (Str × Val)) (k : Str) (rest : Pos) (c : Val)
     (h : PathOk (.dict cls kvs) (.key k :: rest) c) (fuel : Nat) (hf : fuel ≥ 2 * (rest.length + 1))
-    (xp : Str) (v : Val)
-    (hm : ∀ f, (findallTop fuel fresh (.dict cls kvs) (slash ++ renderPos (.key k :: rest))).res = .ok (some f) →
+    (xp : Str) (v : Val) (re : Bool)
+    (hm : ∀ f, (findallTop fuel fresh (.dict cls kvs) (slash ++ renderPos (.key k :: rest)) re).res = .ok (some f) →
       (xp, v) ∈ f) :
     getItem fuel (.dict cls kvs) xp = (.dict cls kvs, .ok v) := by
-  have hex := C19_exact_path cls kvs k rest c h fuel (by omega)
+  have hex := C19_exact_path cls kvs k rest c h fuel (by omega) re
   have := hm _ (by rw [hex])
   simp only [List.mem_singleton, Prod.mk.injEq] at this
   obtain ⟨rfl, rfl⟩ := this
@@ -125,13 +142,14 @@ theorem C19_resolves (cls : Cls) (kvs : List (Str × Val)) (k : Str) (rest : Pos
 
 /-! ## 3. findfirst -/
 
-/-- **findfirst as documented**: whatever `findall` raises is raised; nothing found (`None` or
-an empty mapping) is `IndexError`, or `(None, None)` when `raise_exception` is false; exactly
-one pair is returned as it is; several pairs are `IndexError`, or the first pair when
-`raise_exception` is false. -/
+/-- **findfirst as documented**: the search runs with `raise_exception=False`
+(`findall(node, xpath, False)`, which since C19-e reaches `_findall`); what that search still raises
+is raised; nothing found (`None` or an empty mapping) is `IndexError`, or `(None, None)` when
+`raise_exception` is false; exactly one pair is returned as it is; several pairs are `IndexError`,
+or the first pair when `raise_exception` is false. -/
 theorem C19_findfirst (fuel : Nat) (st : Defaults) (t : Val) (e : Str) (re : Bool) :
     (findfirstTop fuel st t e re).1 =
-      match (findallTop fuel st t e).res with
+      match (findallTop fuel st t e false).res with
       | .error x => .error x
       | .ok f =>
         match f.getD [] with
@@ -140,7 +158,7 @@ theorem C19_findfirst (fuel : Nat) (st : Defaults) (t : Val) (e : Str) (re : Boo
         | kv :: _ :: _ => if re then .error .IndexError else .ok (some kv) := by
   unfold findfirstTop
   simp only
-  cases (findallTop fuel st t e).res with
+  cases (findallTop fuel st t e false).res with
   | error x => rfl
   | ok f =>
     simp only
@@ -150,6 +168,49 @@ theorem C19_findfirst (fuel : Nat) (st : Defaults) (t : Val) (e : Str) (re : Boo
       cases more with
       | nil => simp
       | cons _ _ => cases re <;> simp
+
+/-- **A miss is never an exception of the search when `raise_exception=False`.**  For every tree,
+expression, starting contents of the defaults and fuel, `findall(xpath, False)` does not raise
+IndexError or KeyError — the two exceptions `_findall` uses for "not there" (index out of range, a
+scalar where a container is expected, an index on a dictionary, `'..'` above the root) — and since
+C19-d a step on a final element is a plain miss.  What may still be raised comes from the
+expression, not from the tree (TypeError / ValueError / SyntaxError of a malformed step,
+AttributeError of `text()` on a non-string). -/
+theorem C19_findall_quiet (fuel : Nat) (st : Defaults) (t : Val) (e : Str) :
+    (findallTop fuel st t e false).res ≠ .error .IndexError ∧
+    (findallTop fuel st t e false).res ≠ .error .KeyError :=
+  fa_noMiss fuel t (tokens e) st.1 st.2
+
+/-- **findfirst signals "none" as documented.**  `findfirst(xpath, False)` never raises IndexError
+or KeyError: a miss of any kind is `(None, None)`.  `findfirst(xpath)` (`raise_exception=True`)
+never raises KeyError: its only signal for none / many is its own IndexError. -/
+theorem C19_findfirst_signals (fuel : Nat) (st : Defaults) (t : Val) (e : Str) :
+    ((findfirstTop fuel st t e false).1 ≠ .error .IndexError ∧
+     (findfirstTop fuel st t e false).1 ≠ .error .KeyError) ∧
+    (findfirstTop fuel st t e true).1 ≠ .error .KeyError := by
+  have hq := C19_findall_quiet fuel st t e
+  rw [C19_findfirst, C19_findfirst]
+  cases hr : (findallTop fuel st t e false).res with
+  | error x =>
+    rw [hr] at hq
+    simp only
+    have h1 : x ≠ .IndexError := fun h => hq.1 (by rw [h])
+    have h2 : x ≠ .KeyError := fun h => hq.2 (by rw [h])
+    exact ⟨⟨fun h => h1 (by cases h; rfl), fun h => h2 (by cases h; rfl)⟩, fun h => h2 (by cases h; rfl)⟩
+  | ok f =>
+    simp only
+    cases f.getD [] with
+    | nil => simp
+    | cons kv more => cases more <;> simp
+
+/-- a name / index / `[*]` step applied to a final element (fix C19-d): a miss of that branch —
+`None`, objects untouched — in both modes (before the fix: `KeyError("Internal error…")`) -/
+theorem C19_scalar_step_miss (re : Bool) (fuel : Nat) (node : Val) (tok : Str) (rest : List Str)
+    (fl : FL) (ps : PS) (hn : FindAll.isContainer node = false)
+    (hc : (∃ n, classify tok = .name n) ∨ (∃ i, classify tok = .idx i) ∨ classify tok = .star) :
+    fa re (fuel + 1) node (tok :: rest) fl ps = ⟨.ok Option.none, fl, ps⟩ := by
+  cases node <;> simp only [FindAll.isContainer, Bool.true_eq_false] at hn <;>
+    rcases hc with ⟨n, h⟩ | ⟨i, h⟩ | h <;> simp only [fa, step, h, stepName, stepIdx, stepStar]
 
 /-! ## 4. name on a list -/
 
@@ -192,13 +253,13 @@ lists contain only containers, `'//*/name'` returns exactly the pairs (canonical
 node at `p`) for the positions `p` of `descV`, in that order — the `*` step first tries `name` on
 the current node and then descends with the `*` kept into every container child. -/
 theorem C19_descendant_complete (cls : Cls) (kvs : List (Str × Val)) (name : Str) (hn : PlainKey name)
-    (hk : KeysOkV (.dict cls kvs)) (hc : ContOkV (.dict cls kvs)) :
+    (hk : KeysOkV (.dict cls kvs)) (hc : ContOkV (.dict cls kvs)) (re : Bool := true) :
     ∃ n, ∀ fuel ≥ n,
-      (findallTop fuel fresh (.dict cls kvs) (['/', '/', '*', '/'] ++ name)).res =
+      (findallTop fuel fresh (.dict cls kvs) (['/', '/', '*', '/'] ++ name) re).res =
         .ok (some ((descV name (.dict cls kvs)).map (fun pv => (slash ++ renderPos pv.1, pv.2)))) := by
-  obtain ⟨n, hN⟩ := fad_descendant true hn cls kvs hk hc
+  obtain ⟨n, hN⟩ := fad_descendant re hn cls kvs hk hc
   refine ⟨n, fun fuel hf => ?_⟩
-  show (fa true fuel _ (tokens _) [] []).res = _
+  show (fa re fuel _ (tokens _) [] []).res = _
   rw [fad_tokens_desc hn]
   exact hN fuel hf
 
@@ -234,12 +295,12 @@ theorem C19_goodTree_of_ok (t : Val) (hk : KeysOkV t) (hc : ContOkV t) : GoodTre
 
 /-- the statement in the form "found iff it is a node called `name`" (membership, both ways) -/
 theorem C19_descendant_complete_iff (cls : Cls) (kvs : List (Str × Val)) (name : Str) (hn : PlainKey name)
-    (hk : KeysOkV (.dict cls kvs)) (hc : ContOkV (.dict cls kvs)) :
+    (hk : KeysOkV (.dict cls kvs)) (hc : ContOkV (.dict cls kvs)) (re : Bool := true) :
     ∃ n, ∀ fuel ≥ n, ∃ f,
-      (findallTop fuel fresh (.dict cls kvs) (['/', '/', '*', '/'] ++ name)).res = .ok (some f) ∧
+      (findallTop fuel fresh (.dict cls kvs) (['/', '/', '*', '/'] ++ name) re).res = .ok (some f) ∧
       ∀ xp v, (xp, v) ∈ f ↔
         ∃ p, getAt (.dict cls kvs) (p ++ [.key name]) = some v ∧ xp = slash ++ renderPos (p ++ [.key name]) := by
-  obtain ⟨n, hN⟩ := C19_descendant_complete cls kvs name hn hk hc
+  obtain ⟨n, hN⟩ := C19_descendant_complete cls kvs name hn hk hc re
   refine ⟨n, fun fuel hf => ⟨_, hN fuel hf, fun xp v => ?_⟩⟩
   simp only [List.mem_map, Prod.mk.injEq]
   constructor
@@ -248,6 +309,53 @@ theorem C19_descendant_complete_iff (cls : Cls) (kvs : List (Str × Val)) (name 
     exact ⟨q, hg, rfl⟩
   · rintro ⟨q, hg, rfl⟩
     exact ⟨(q ++ [.key name], v), (C19_descendant_positions _ name hk _ v).2 ⟨⟨q, rfl⟩, hg⟩, rfl, rfl⟩
+
+/-- **Completeness of the descendant wildcard with a two-step tail, `'//*/name/sub'`.**  On a
+dict-rooted tree with `KeysOkV`, `ContOkV` in which no entry called `name` is a list (`NnlV`: below a
+list the step `sub` fans out, which has its own rendering), the result is exactly — in document
+order — the entries `sub` of the dictionaries called `name`, at any depth
+(`tailOf sub (descV name root)`).  A node called `name` that is a final element, or a dictionary
+without `sub`, is a miss of that branch (fix C19-d: before, the first such node aborted the whole
+search with `KeyError("Internal error…")`) and the search goes on with the other branches. -/
+theorem C19_descendant_tail (cls : Cls) (kvs : List (Str × Val)) (name sub : Str)
+    (hn : PlainKey name) (hs : PlainKey sub)
+    (hk : KeysOkV (.dict cls kvs)) (hc : ContOkV (.dict cls kvs)) (hl : NnlV name (.dict cls kvs))
+    (re : Bool := true) :
+    ∃ n, ∀ fuel ≥ n,
+      (findallTop fuel fresh (.dict cls kvs) (['/', '/', '*', '/'] ++ name ++ ['/'] ++ sub) re).res =
+        .ok (some ((tailOf sub (descV name (.dict cls kvs))).map (fun pv => (slash ++ renderPos pv.1, pv.2)))) := by
+  obtain ⟨n, hN⟩ := fat_descendant re hn hs cls kvs hk hc hl
+  refine ⟨n, fun fuel hf => ?_⟩
+  show (fa re fuel _ (tokens _) [] []).res = _
+  rw [fat_tokens hn hs]
+  exact hN fuel hf
+
+/-- **Both inclusions**: the pairs listed are exactly the nodes at the positions that end with the
+keys `name`, `sub` — every such node, at any depth, and nothing else -/
+theorem C19_descendant_tail_positions (t : Val) (name sub : Str) (hk : KeysOkV t) (p : Pos) (v : Val) :
+    (p, v) ∈ tailOf sub (descV name t) ↔
+      ∃ q, p = q ++ [.key name, .key sub] ∧ getAt t p = some v :=
+  fat_tail_mem_getAt name sub t hk p v
+
+/-- the statement in the form "found iff it is the node at a position `…/name/sub`" -/
+theorem C19_descendant_tail_iff (cls : Cls) (kvs : List (Str × Val)) (name sub : Str)
+    (hn : PlainKey name) (hs : PlainKey sub)
+    (hk : KeysOkV (.dict cls kvs)) (hc : ContOkV (.dict cls kvs)) (hl : NnlV name (.dict cls kvs))
+    (re : Bool := true) :
+    ∃ n, ∀ fuel ≥ n, ∃ f,
+      (findallTop fuel fresh (.dict cls kvs) (['/', '/', '*', '/'] ++ name ++ ['/'] ++ sub) re).res = .ok (some f) ∧
+      ∀ xp v, (xp, v) ∈ f ↔
+        ∃ q, getAt (.dict cls kvs) (q ++ [.key name, .key sub]) = some v ∧
+          xp = slash ++ renderPos (q ++ [.key name, .key sub]) := by
+  obtain ⟨n, hN⟩ := C19_descendant_tail cls kvs name sub hn hs hk hc hl re
+  refine ⟨n, fun fuel hf => ⟨_, hN fuel hf, fun xp v => ?_⟩⟩
+  simp only [List.mem_map, Prod.mk.injEq]
+  constructor
+  · rintro ⟨⟨p, w⟩, hm, rfl, rfl⟩
+    obtain ⟨q, rfl, hg⟩ := (C19_descendant_tail_positions _ name sub hk p w).1 hm
+    exact ⟨q, hg, rfl⟩
+  · rintro ⟨q, hg, rfl⟩
+    exact ⟨(q ++ [.key name, .key sub], v), (C19_descendant_tail_positions _ name sub hk _ v).2 ⟨q, rfl, hg⟩, rfl, rfl⟩
 
 /-! ## 6. every key resolves
 
@@ -264,10 +372,10 @@ index, `[*]` loop with its in-place updates, `'..'`, `text()` condition — whic
 the result has `xp = "//" ++ steps` for steps (plain keys, attached integer indexes) along which
 plain Python indexing from the root reaches `v`. -/
 theorem C19_keys_spell (cls : Cls) (kvs : List (Str × Val)) (e : Str) (hk : KeysOkV (.dict cls kvs))
-    (fuel : Nat) (f : Found) (h : (findallTop fuel fresh (.dict cls kvs) e).res = .ok (some f))
+    (fuel : Nat) (re : Bool) (f : Found) (h : (findallTop fuel fresh (.dict cls kvs) e re).res = .ok (some f))
     (xp : Str) (v : Val) (hm : (xp, v) ∈ f) :
     ∃ steps, PlainSteps steps ∧ xp = renderSp .two steps ∧ stepsGet (.dict cls kvs) steps = some v := by
-  obtain ⟨gs, hp, hkey, hget⟩ := fad_findall_spells cls kvs hk e fuel f h (xp, v) hm
+  obtain ⟨gs, hp, hkey, hget⟩ := fad_findall_spells cls kvs hk e fuel f re h (xp, v) hm
   exact ⟨stepsOfG gs, fad_plainSteps gs hp, hkey.trans (fad_keyOf_renderSp gs hp), hget⟩
 
 /-- **Every key of every result resolves through item access (and `get`) to the value found**
@@ -275,11 +383,11 @@ theorem C19_keys_spell (cls : Cls) (kvs : List (Str × Val)) (e : Str) (hk : Key
 names, `*`, indexes in every spelling, `[*]`, `'..'`, `text()` conditions — and the lookup leaves
 the tree as it is. -/
 theorem C19_resolves_all (cls : Cls) (kvs : List (Str × Val)) (e : Str) (hk : KeysOkV (.dict cls kvs))
-    (fuel : Nat) (f : Found) (h : (findallTop fuel fresh (.dict cls kvs) e).res = .ok (some f))
+    (fuel : Nat) (re : Bool) (f : Found) (h : (findallTop fuel fresh (.dict cls kvs) e re).res = .ok (some f))
     (xp : Str) (v : Val) (hm : (xp, v) ∈ f) :
     ∃ n, ∀ fuel' ≥ n, getItem fuel' (.dict cls kvs) xp = (.dict cls kvs, .ok v) ∧
       ∀ d, get fuel' (.dict cls kvs) xp d = (.dict cls kvs, .ok v) := by
-  obtain ⟨steps, hp, rfl, hget⟩ := C19_keys_spell cls kvs e hk fuel f h xp v hm
+  obtain ⟨steps, hp, rfl, hget⟩ := C19_keys_spell cls kvs e hk fuel re f h xp v hm
   by_cases hne : steps = []
   · subst hne
     rw [fad_stepsGet_nil] at hget
@@ -312,6 +420,67 @@ theorem C19_text_key_fixed :
 theorem C19_scalar_in_list_cex :
     (findallTop 20 fresh (.dict .n0 [(['s'], .list .n0 [.int 1])]) ['/', '/', '*', '/', 'n']).res
       = .error .IndexError := by decide
+
+/-- the tree of the former findings C19-d / C19-e:
+`{'x': {'name': 'n'}, 'y': {'name': {'first': 'f'}}, 'a': {'b': 'x'}, 'l': [{'name': 'q'}]}` -/
+def exMiss : Val :=
+  .dict .n0 [(['x'], .dict .n0 [(['n', 'a', 'm', 'e'], .str ['n'])]),
+             (['y'], .dict .n0 [(['n', 'a', 'm', 'e'], .dict .n0 [(['f', 'i', 'r', 's', 't'], .str ['f'])])]),
+             (['a'], .dict .n0 [(['b'], .str ['x'])]),
+             (['l'], .list .n0 [.dict .n0 [(['n', 'a', 'm', 'e'], .str ['q'])]])]
+
+/-- **C19-d (fixed by `fixes/C19-d.patch`).**  A step below a final element is a miss of that branch:
+`'//*/name/first'` goes on after `x/name` (a string) and finds `//y/name/first`; `'a/b/c'` is `None`
+like `'a/zz'` (before the fix both raised `KeyError("Internal error…")`). -/
+theorem C19_step_below_scalar_fixed :
+    (findallTop 20 fresh exMiss ['/', '/', '*', '/', 'n', 'a', 'm', 'e', '/', 'f', 'i', 'r', 's', 't']).res
+      = .ok (some [(['/', '/', 'y', '/', 'n', 'a', 'm', 'e', '/', 'f', 'i', 'r', 's', 't'], .str ['f'])]) ∧
+    (findallTop 20 fresh exMiss ['a', '/', 'b', '/', 'c']).res = .ok Option.none ∧
+    (findallTop 20 fresh exMiss ['a', '/', 'z', 'z']).res = .ok Option.none ∧
+    (findallTop 20 fresh exMiss ['a', '/', 'b', '[', '0', ']']).res = .ok Option.none :=
+  ⟨by decide, by decide, by decide, by decide⟩
+
+/-- **C19-e (fixed by `fixes/C19-e.patch`).**  `raise_exception=False` reaches `_findall`:
+`findfirst(…, False)` answers `(None, None)` for every kind of miss (an index out of range, `'..'`
+above the root, a step below a final element), `findfirst(…)` signals it with its own IndexError,
+`findall(…, False)` returns `None` where `findall(…)` raises. -/
+theorem C19_raise_exception_threaded :
+    (findfirstTop 20 fresh exMiss ['l', '[', '5', ']', '/', 'n', 'a', 'm', 'e'] false).1 = .ok Option.none ∧
+    (findfirstTop 20 fresh exMiss ['.', '.'] false).1 = .ok Option.none ∧
+    (findfirstTop 20 fresh exMiss ['a', '/', 'b', '/', 'c'] false).1 = .ok Option.none ∧
+    (findfirstTop 20 fresh exMiss ['l', '[', '5', ']', '/', 'n', 'a', 'm', 'e'] true).1 = .error .IndexError ∧
+    (findfirstTop 20 fresh exMiss ['.', '.'] true).1 = .error .IndexError ∧
+    (findallTop 20 fresh exMiss ['l', '[', '5', ']'] false).res = .ok Option.none ∧
+    (findallTop 20 fresh exMiss ['l', '[', '5', ']']).res = .error .IndexError ∧
+    (findallTop 20 fresh exMiss ['.', '.']).res = .error .KeyError :=
+  ⟨by decide, by decide, by decide, by decide, by decide, by decide, by decide, by decide⟩
+
+-- `C19_descendant_tail`: the hypotheses hold for `exMiss` (no entry `name` is a list); the nodes it must find:
+-- `x/name` is a final element (a miss), `y/name` a dictionary with `first`, `l[0]/name` a final element
+example : KeysOkV exMiss ∧ ContOkV exMiss ∧ NnlV ['n', 'a', 'm', 'e'] exMiss := by
+  have pk : ∀ k : Str, k ≠ [] → (∀ c ∈ k, plainChar c = true) → k ≠ ['.', '.'] → PlainKey k :=
+    fun k h1 h2 h3 => ⟨h1, h2, h3⟩
+  simp only [exMiss, KeysOkV, KeysOkK, KeysOkL, ContOkV, ContOkK, ContOkL, NnlV, NnlK, NnlL, lookup, FindAll.isContainer]
+  refine ⟨?_, by decide, ?_⟩
+  · repeat' apply And.intro
+    all_goals first | exact pk _ (by decide) (by decide) (by decide) | trivial | decide
+  · repeat' apply And.intro
+    all_goals first | trivial | (intro c xs h; revert h; simp)
+example : tailOf ['f', 'i', 'r', 's', 't'] (descV ['n', 'a', 'm', 'e'] exMiss) =
+    [([.key ['y'], .key ['n', 'a', 'm', 'e'], .key ['f', 'i', 'r', 's', 't']], .str ['f'])] := by
+  simp [exMiss, descV, descK, descL, lookup, tailOf, tl1]
+-- `C19_scalar_step_miss`: its hypotheses hold for a string node and a name / an index / `[*]`
+example : FindAll.isContainer (.str ['x']) = false ∧ classify ['c'] = .name ['c'] ∧
+    classify ['[', '0', ']'] = .idx 0 ∧ classify ['[', '*', ']'] = .star := by decide
+-- `C19_findall_quiet` / `C19_findfirst_signals`: what is still raised with `raise_exception=False`
+-- comes from the expression (a malformed step), a found pair is returned as before
+example : (findallTop 20 fresh exMiss ['a', '/', '[', 'x'] false).res = .error .TypeError ∧
+    (findfirstTop 20 fresh exMiss ['a', '/', 'b'] false).1 = .ok (some (['/', '/', 'a', '/', 'b'], .str ['x'])) := by
+  decide
+-- a history with modes: the raising search, its quiet twin, a search after both
+example : (runHistM 20 fresh [(exMiss, ['l', '[', '5', ']'], true), (exMiss, ['l', '[', '5', ']'], false),
+      (exMiss, ['a', '/', 'b'], true)]).1
+    = [.error .IndexError, .ok Option.none, .ok (some [(['/', '/', 'a', '/', 'b'], .str ['x'])])] := by decide
 
 -- non-vacuity of `C19_exact_path` / `C19_resolves`: key, index, index, key
 example : PathOk exTree [.key ['l'], .idx 1, .idx 0, .key ['n']] (.int 5) := by
@@ -390,12 +559,13 @@ canonical xpath — with the prefix `//` as `findall` reports it, with `/`, or w
 (`//[1]/a`, `/[1]/a`, `[1]/a`) — returns exactly one pair: `"//" ++` rendered position and the node
 there; the defaults are untouched. -/
 theorem C19_exact_path_list (cls : Cls) (xs : List Val) (n : Nat) (rest : Pos) (c : Val)
-    (h : PathOk (.list cls xs) (.idx n :: rest) c) (lead : Lead) (fuel : Nat) (hf : fuel > rest.length + 1) :
-    findallTop fuel fresh (.list cls xs) (leadStr lead ++ renderPos (.idx n :: rest)) =
+    (h : PathOk (.list cls xs) (.idx n :: rest) c) (lead : Lead) (fuel : Nat) (hf : fuel > rest.length + 1)
+    (re : Bool := true) :
+    findallTop fuel fresh (.list cls xs) (leadStr lead ++ renderPos (.idx n :: rest)) re =
       ⟨.ok (some [('/' :: '/' :: renderPos (.idx n :: rest), c)]), [], []⟩ := by
   have hp : PlainPos (.idx n :: rest) := h.plain
-  show fa true fuel _ (tokens _) [] [] = _
-  rw [fal_tokens_render lead n rest hp, fa_exact true (.idx n :: rest) _ c [] [] fuel h (by simpa using hf),
+  show fa re fuel _ (tokens _) [] [] = _
+  rw [fal_tokens_render lead n rest hp, fa_exact re (.idx n :: rest) _ c [] [] fuel h (by simpa using hf),
     fal_keyOf_rooted (q := .idx n :: rest) trivial (by simp) hp]
   rfl
 
@@ -416,24 +586,24 @@ exactly the pairs (`"//" ++` rendered `p`, node at `p`) for the positions `p` of
 node called `name` at any depth below the elements (`C19_descendant_positions`), element by
 element, a dictionary's own entry first, nothing else. -/
 theorem C19_descendant_complete_list (cls : Cls) (xs : List Val) (name : Str) (hn : PlainKey name)
-    (hk : KeysOkV (.list cls xs)) (hc : ContOkV (.list cls xs)) :
+    (hk : KeysOkV (.list cls xs)) (hc : ContOkV (.list cls xs)) (re : Bool := true) :
     ∃ n, ∀ fuel ≥ n,
-      (findallTop fuel fresh (.list cls xs) (['/', '/', '*', '/'] ++ name)).res =
+      (findallTop fuel fresh (.list cls xs) (['/', '/', '*', '/'] ++ name) re).res =
         .ok (some ((descV name (.list cls xs)).map (fun pv => ('/' :: '/' :: renderPos pv.1, pv.2)))) := by
-  obtain ⟨n, hN⟩ := fal_descendant true hn cls xs hk hc
+  obtain ⟨n, hN⟩ := fal_descendant re hn cls xs hk hc
   refine ⟨n, fun fuel hf => ?_⟩
-  show (fa true fuel _ (tokens _) [] []).res = _
+  show (fa re fuel _ (tokens _) [] []).res = _
   rw [fad_tokens_desc hn]
   exact hN fuel hf
 
 /-- the statement in the form "found iff it is a node called `name`" (membership, both ways) -/
 theorem C19_descendant_complete_iff_list (cls : Cls) (xs : List Val) (name : Str) (hn : PlainKey name)
-    (hk : KeysOkV (.list cls xs)) (hc : ContOkV (.list cls xs)) :
+    (hk : KeysOkV (.list cls xs)) (hc : ContOkV (.list cls xs)) (re : Bool := true) :
     ∃ n, ∀ fuel ≥ n, ∃ f,
-      (findallTop fuel fresh (.list cls xs) (['/', '/', '*', '/'] ++ name)).res = .ok (some f) ∧
+      (findallTop fuel fresh (.list cls xs) (['/', '/', '*', '/'] ++ name) re).res = .ok (some f) ∧
       ∀ xp v, (xp, v) ∈ f ↔
         ∃ p, getAt (.list cls xs) (p ++ [.key name]) = some v ∧ xp = '/' :: '/' :: renderPos (p ++ [.key name]) := by
-  obtain ⟨n, hN⟩ := C19_descendant_complete_list cls xs name hn hk hc
+  obtain ⟨n, hN⟩ := C19_descendant_complete_list cls xs name hn hk hc re
   refine ⟨n, fun fuel hf => ⟨_, hN fuel hf, fun xp v => ?_⟩⟩
   simp only [List.mem_map, Prod.mk.injEq]
   constructor
@@ -450,10 +620,10 @@ with their attached indexes — and plain Python indexing along `steps` from the
 Proved through the invariant `FalInv` (`Proofs/FindAllList.lean`) over every branch of `_findall`
 with the state threading of the model, the rebinding of the empty path list to `[""]` included. -/
 theorem C19_keys_spell_list (cls : Cls) (xs : List Val) (e : Str) (hk : KeysOkV (.list cls xs))
-    (fuel : Nat) (f : Found) (h : (findallTop fuel fresh (.list cls xs) e).res = .ok (some f))
+    (fuel : Nat) (re : Bool) (f : Found) (h : (findallTop fuel fresh (.list cls xs) e re).res = .ok (some f))
     (xp : Str) (v : Val) (hm : (xp, v) ∈ f) :
     ∃ steps, PlainSteps steps ∧ xp = renderSp .two steps ∧ stepsGet (.list cls xs) steps = some v := by
-  obtain ⟨is, gs, hp, hh, hkey, hget⟩ := fal_findall_spells cls xs hk e fuel f h (xp, v) hm
+  obtain ⟨is, gs, hp, hh, hkey, hget⟩ := fal_findall_spells cls xs hk e fuel f re h (xp, v) hm
   exact ⟨falSteps is gs, fal_plainSteps is gs hp, hkey.trans (fal_keyOf_renderSp is gs hh hp), hget⟩
 
 /-- **Every key of every result on a list root resolves through item access and `get` on the
@@ -461,11 +631,11 @@ theorem C19_keys_spell_list (cls : Cls) (xs : List Val) (e : Str) (hk : KeysOkV 
 `C01_spellings_string_list`; the key `'//'` = the root itself), whatever the expression, and the
 lookup leaves the tree as it is. -/
 theorem C19_resolves_all_list (cls : Cls) (xs : List Val) (e : Str) (hk : KeysOkV (.list cls xs))
-    (fuel : Nat) (f : Found) (h : (findallTop fuel fresh (.list cls xs) e).res = .ok (some f))
+    (fuel : Nat) (re : Bool) (f : Found) (h : (findallTop fuel fresh (.list cls xs) e re).res = .ok (some f))
     (xp : Str) (v : Val) (hm : (xp, v) ∈ f) :
     ∃ n, ∀ fuel' ≥ n, getItem fuel' (.list cls xs) xp = (.list cls xs, .ok v) ∧
       ∀ d, get fuel' (.list cls xs) xp d = (.list cls xs, .ok v) := by
-  obtain ⟨steps, hp, rfl, hget⟩ := C19_keys_spell_list cls xs e hk fuel f h xp v hm
+  obtain ⟨steps, hp, rfl, hget⟩ := C19_keys_spell_list cls xs e hk fuel re f h xp v hm
   by_cases hne : steps = []
   · subst hne
     rw [fad_stepsGet_nil] at hget
@@ -487,7 +657,7 @@ theorem C19_resolves_list (cls : Cls) (xs : List Val) (n : Nat) (rest : Pos) (c 
       getItem fuel' (.list cls xs) ('/' :: '/' :: renderPos (.idx n :: rest)) = (.list cls xs, .ok c) ∧
       ∀ d, get fuel' (.list cls xs) ('/' :: '/' :: renderPos (.idx n :: rest)) d = (.list cls xs, .ok c) := by
   have hex := C19_exact_path_list cls xs n rest c h lead fuel hf
-  exact C19_resolves_all_list cls xs _ hk fuel _ (by rw [hex]) _ c (by simp)
+  exact C19_resolves_all_list cls xs _ hk fuel true _ (by rw [hex]) _ c (by simp)
 
 /-- a list root: dict elements, a nested list with a dict and a list of lists, an empty dict -/
 def exList : Val :=
